@@ -504,7 +504,7 @@ package loadbalancer
 //@   ensures result == clientGone(r)
 //@ func (*LoadBalancer).recordRequestMetrics
 //@   props C04 C13 C12 C03
-//@   ensures an_exchange_the_client_abandoned_is_no_health_observation@C04: clientGone(r) ==> backend.IsHealthy == old(backend.IsHealthy) && backend.UnhealthyUntil == old(backend.UnhealthyUntil)
+//@   ensures an_exchange_the_client_abandoned_is_no_health_observation@C04: clientFault ==> backend.IsHealthy == old(backend.IsHealthy) && backend.UnhealthyUntil == old(backend.UnhealthyUntil)
 //@             && failCount(lb, backend.Name) == old(failCount(lb, backend.Name))
 //@   requires backend != nil && reqOK(lb, r) && lbOK(lb) && idle(lb) && bmCellsOK(lb.metricsCollector) && passiveOK(lb) && below2to63(lb)
 //@   ensures one_outcome: outcomes(lb) == old(outcomes(lb)) + 1 && mtx(lb).RateLimitedRequests == old(mtx(lb).RateLimitedRequests)
@@ -512,9 +512,9 @@ package loadbalancer
 //@   ensures classified_failed: statusCode >= 500 ==> mtx(lb).FailedRequests == old(mtx(lb).FailedRequests) + 1 && mtx(lb).SuccessfulRequests == old(mtx(lb).SuccessfulRequests)
 //@   ensures good_response_never_ejects: statusCode < 500 ==> backend.IsHealthy == old(backend.IsHealthy) && backend.UnhealthyUntil == old(backend.UnhealthyUntil)
 //@             && failCount(lb, backend.Name) == old(failCount(lb, backend.Name))
-//@   ensures eject_only_at_threshold: statusCode >= 500 && !clientGone(r) && lb.healthChecks.passiveEnabled && old(failCount(lb, backend.Name)) + 1 < lb.healthChecks.passiveThreshold
+//@   ensures eject_only_at_threshold: statusCode >= 500 && !clientFault && lb.healthChecks.passiveEnabled && old(failCount(lb, backend.Name)) + 1 < lb.healthChecks.passiveThreshold
 //@             ==> backend.IsHealthy == old(backend.IsHealthy) && failCount(lb, backend.Name) == old(failCount(lb, backend.Name)) + 1
-//@   ensures eject_at_threshold: statusCode >= 500 && !clientGone(r) && lb.healthChecks.passiveEnabled && old(failCount(lb, backend.Name)) + 1 >= lb.healthChecks.passiveThreshold
+//@   ensures eject_at_threshold: statusCode >= 500 && !clientFault && lb.healthChecks.passiveEnabled && old(failCount(lb, backend.Name)) + 1 >= lb.healthChecks.passiveThreshold
 //@             ==> !backend.IsHealthy && backend.UnhealthyUntil == now() + lb.healthChecks.passiveTimeout && failCount(lb, backend.Name) == 0
 //@   ensures passive_off: !lb.healthChecks.passiveEnabled ==> backend.IsHealthy == old(backend.IsHealthy)
 //@   ensures kept_cells: bmCellsOK(lb.metricsCollector)
@@ -539,6 +539,7 @@ package loadbalancer
 //@   ensures handed_to_the_backend_proxy_exactly_once_unchanged: proxied == old(proxied) + 1 && lastProxiedReq == ptr(r)
 //@             && asptr(lastProxiedWriter, *responseWriter).ResponseWriter == w
 //@   ensures_panic handed_over_once_before_abort: proxied == old(proxied) + 1 && lastProxiedReq == ptr(r)
+//@   ensures the_writer_knows_the_request_it_judges@C04: asptr(lastProxiedWriter, *responseWriter).req == r
 //@   ensures the_clients_body_is_watched@C04: old(r.Body) != nil && old(r.Body) != http.NoBody ==> dyntype(r.Body, *clientBody) && asptr(r.Body, *clientBody).ReadCloser == old(r.Body)
 //@   ensures no_body_stays_no_body: old(r.Body) == nil || old(r.Body) == http.NoBody ==> r.Body == old(r.Body)
 //@   ensures kept: bmCellsOK(lb.metricsCollector) && passiveOK(lb) && mtx(lb).TotalRequests == old(mtx(lb).TotalRequests)
@@ -552,7 +553,7 @@ package loadbalancer
 //@   modifies gaugeReadUnderLock, r.Body, proxied, lastProxiedReq, lastProxiedWriter, http.ResponseWriter.ceAtCommit, http.ResponseWriter.clAtCommit, backend.ActiveConnections, Backend.IsHealthy, Backend.UnhealthyUntil, mapof(lb.healthChecks.unhealthyBackends), mapof(lb.metricsCollector.metrics.BackendMetrics),
 //@            metrics.BackendMetrics.IsHealthy, metrics.BackendMetrics.LastHealthCheck, metrics.BackendMetrics.TotalRequests, metrics.BackendMetrics.SuccessfulRequests,
 //@            metrics.BackendMetrics.FailedRequests, metrics.BackendMetrics.AverageResponseTime, metrics.BackendMetrics.ActiveConnections, metrics.Metrics.SuccessfulRequests,
-//@            metrics.Metrics.FailedRequests, metrics.Metrics.avgResponseTimeBits, responseWriter.statusCode, http.ResponseWriter.committed, http.ResponseWriter.status,
+//@            metrics.Metrics.FailedRequests, metrics.Metrics.avgResponseTimeBits, responseWriter.statusCode, responseWriter.clientFault, http.ResponseWriter.committed, http.ResponseWriter.status,
 //@            http.ResponseWriter.bodyLen, http.ResponseWriter.flushes, http.ResponseWriter.hijacked, mirrorAgreedAtEveryRelease
 
 //@ pred proxiesOK(lb *LoadBalancer) := forall b *Backend :: inPool(lb, b) ==> b != nil && b.ReverseProxy != nil
@@ -573,7 +574,7 @@ package loadbalancer
 //@            mapof(lb.healthChecks.unhealthyBackends), mapof(lb.metricsCollector.metrics.BackendMetrics),
 //@            metrics.BackendMetrics.IsHealthy, metrics.BackendMetrics.LastHealthCheck, metrics.BackendMetrics.TotalRequests, metrics.BackendMetrics.SuccessfulRequests,
 //@            metrics.BackendMetrics.FailedRequests, metrics.BackendMetrics.AverageResponseTime, metrics.BackendMetrics.ActiveConnections, metrics.Metrics.SuccessfulRequests,
-//@            metrics.Metrics.FailedRequests, metrics.Metrics.avgResponseTimeBits, responseWriter.statusCode, http.ResponseWriter.committed, http.ResponseWriter.status,
+//@            metrics.Metrics.FailedRequests, metrics.Metrics.avgResponseTimeBits, responseWriter.statusCode, responseWriter.clientFault, http.ResponseWriter.committed, http.ResponseWriter.status,
 //@            http.ResponseWriter.bodyLen, http.ResponseWriter.flushes, http.ResponseWriter.hijacked, mirrorAgreedAtEveryRelease
 
 //@ axiom errBackendFailure != circuitbreaker.ErrCircuitBreakerOpen && errBackendFailure != circuitbreaker.ErrTooManyRequests
@@ -604,13 +605,17 @@ package loadbalancer
 
 // ---- the balancer's response-writer wrapper (C01 transparency of the glue, C20 upgrade support)
 //@ forwards responseWriter : http.Flusher, http.Hijacker props C01 C20
+// C04 "ejected once that many [failed responses] occur in a row": whether an exchange had failed on the client's side
+// is judged when its status is written - the server cancels the request's context as soon as the client's connection
+// closes, so judging after the exchange would excuse a 500 the backend sent to a client that received it and hung up.
 //@ func (*responseWriter).WriteHeader
-//@   props C01 C12
-//@   requires rw.ResponseWriter != nil
+//@   props C01 C12 C04
+//@   requires rw.ResponseWriter != nil && (rw.req != nil ==> bodyOK(rw.req))
+//@   ensures the_client_is_judged_when_the_status_is_written@C04: rw.req != nil ==> rw.clientFault == clientGone(rw.req)
 //@   ensures same_status_forwarded: rw.statusCode == statusCode && (!old(rw.ResponseWriter.committed) && !informational(statusCode) ==> rw.ResponseWriter.committed && rw.ResponseWriter.status == statusCode)
 //@             && (informational(statusCode) ==> rw.ResponseWriter.committed == old(rw.ResponseWriter.committed))
 //@   ensures body_untouched: rw.ResponseWriter.bodyLen == old(rw.ResponseWriter.bodyLen)
-//@   modifies rw.statusCode, http.ResponseWriter.committed, http.ResponseWriter.status, http.ResponseWriter.ceAtCommit, http.ResponseWriter.clAtCommit
+//@   modifies rw.statusCode, rw.clientFault, http.ResponseWriter.committed, http.ResponseWriter.status, http.ResponseWriter.ceAtCommit, http.ResponseWriter.clAtCommit
 //@ func (*responseWriter).Flush
 //@   props C01 C12
 //@   requires rw.ResponseWriter != nil
